@@ -16,10 +16,12 @@ Spell(n, cs) ==
   ELSE CASE n = "V" -> "v" [] n = "V1" -> "v1" [] n = "V10" -> "v10" [] n = "B" -> "b"
          [] n = "AB" -> IF cs = "lower" THEN "ab" ELSE "aB"
 \* what a value is as a query result / doubled / as SQL text (the latter only matters as built)
+\* fcoal: COALESCE(NULL, NULL, 7);  fconc: CONCAT('he', 'l', 'lo')  (values given by function calls with several arguments)
 ValStr(v) == CASE v = "n7" -> "7" [] v = "n42" -> "42" [] v = "sx" -> "x" [] v = "sq" -> "it's" [] v = "expr" -> "3" [] v = "nneg" -> "-5"
-Numeric(v) == v \in {"n7", "n42", "expr", "nneg"}
-Mul2(v) == CASE v = "n7" -> "14" [] v = "n42" -> "84" [] v = "expr" -> "6" [] v = "nneg" -> "-10"
-ValText(v) == CASE v = "n7" -> "7" [] v = "n42" -> "42" [] v = "expr" -> "1 + 2" [] v = "nneg" -> "-5" [] OTHER -> "?"
+               [] v = "fcoal" -> "7" [] v = "fconc" -> "hello"
+Numeric(v) == v \in {"n7", "n42", "expr", "nneg", "fcoal"}
+Mul2(v) == CASE v = "n7" -> "14" [] v = "n42" -> "84" [] v = "expr" -> "6" [] v = "nneg" -> "-10" [] v = "fcoal" -> "14"
+ValText(v) == CASE v = "n7" -> "7" [] v = "n42" -> "42" [] v = "expr" -> "1 + 2" [] v = "nneg" -> "-5" [] v = "fcoal" -> "COALESCE(NULL, NULL, 7)" [] OTHER -> "?"
 
 InitSt == [vars |-> [c \in Conns |-> [n \in Names |-> UNSET]]]
 
@@ -54,6 +56,11 @@ Steps(st, op, D) ==
                     ELSE IF Numeric(v) THEN {R(st, Obs("rows", <<"p " \o ValText(v) \o " q">>))}
                     ELSE {R(st, Obs("exc", <<>>))}        \* the spliced quotes no longer parse
                ELSE {})
+    [] op.k = "setsel" ->    \* one execute_string call:  SET n = v; SELECT $n  - the second statement sees the first one's effect
+         LET s2 == [st EXCEPT !.vars[op.c][op.n] = op.v] IN {R(s2, Obs("rows", <<ValStr(op.v)>>))}
+    [] op.k = "lit2" ->      \* select 'US$$', $n : a literal holding $$ in front of a reference
+         LET v == Look(st, op.c, op.n) IN
+         IF v = UNSET THEN {R(st, Undef(op.n))} ELSE {R(st, Obs("rows", <<"US$$", ValStr(v)>>))}
     [] op.k = "bind" ->      \* select %s  with the bound text 'p $<spelled name> q': bound data is never a reference
          {R(st, Obs("rows", <<"p $" \o Spell(op.n, op.cs) \o " q">>))}
     [] op.k = "other" ->     \* a statement that neither sets nor uses a variable (some are answered without reaching the engine:
@@ -71,15 +78,17 @@ Ops(st) ==
                   n \in {m \in Names : st.vars[x.c][m] = UNSET \/ Numeric(st.vars[x.c][m])}, cs \in CasingsUsed} : x \in Cur}
   \cup {o \in {[k |-> "both", c |-> x.c, u |-> x.u, n |-> n, m |-> m, cs |-> cs] : x \in Cur, n \in Names, m \in Names, cs \in CasingsUsed \ {"mixed"}} : o.n # o.m}
   \cup {[k |-> "lit5", c |-> x.c, u |-> x.u] : x \in Cur}
-  \cup {[k |-> "bind", c |-> x.c, u |-> x.u, n |-> n, cs |-> cs] : x \in Cur, n \in Names, cs \in CasingsUsed}
+  \cup {[k |-> kk, c |-> x.c, u |-> x.u, n |-> n, cs |-> cs] : kk \in {"bind", "lit2"}, x \in Cur, n \in Names, cs \in CasingsUsed}
+  \cup {[k |-> "setsel", c |-> x.c, u |-> x.u, n |-> n, cs |-> cs, v |-> v] : x \in Cur, n \in Names, cs \in CasingsUsed, v \in Vals}
   \cup {[k |-> "other", c |-> x.c, u |-> x.u, w |-> w] : x \in Cur, w \in {"cluster_by", "nop_regex", "select1"}}
 
 \* ---- C15 on the model ----
 \* Lookup / PrefixIndependent / OrderIndependent / PerConnection: what a reference yields depends on nothing but the
 \* last SET/UNSET of exactly that name on that connection; NonRefUntouched; Undefined => error + stutter
 StepOk(st, op, r) ==
-  /\ (op.k \notin {"set", "unset"} => r.post = st)
-  /\ (op.k \in {"set", "unset"} =>
+  /\ (op.k \notin {"set", "unset", "setsel"} => r.post = st)
+  /\ (op.k = "setsel" => r.obs = Obs("rows", <<ValStr(op.v)>>))
+  /\ (op.k \in {"set", "unset", "setsel"} =>
         \A c \in Conns, n \in Names : (c # op.c \/ n # op.n) => r.post.vars[c][n] = st.vars[c][n])
   /\ (op.k = "sel" => IF st.vars[op.c][op.n] = UNSET THEN r.obs = Undef(op.n)
                       ELSE r.obs = Obs("rows", <<ValStr(st.vars[op.c][op.n])>>))
